@@ -9,7 +9,7 @@ CONSTANT NewIds <- NewIdsImpl
 CONSTANT IdLess <- IdLessImpl
 CONSTANT AllSubsets = TRUE
 CONSTANT Triples = TRUE
-CONSTANT BaseNames = {"bare", "public", "mainline", "invite", "prefork", "powerfork", "restricted", "nopl", "twostep", "deepmain"}
+CONSTANT BaseNames = {"bare", "public", "mainline", "invite", "prefork", "powerfork", "restricted", "nopl", "twostep", "deepmain", "inviterace"}
 INVARIANT InvIdentity
 INVARIANT Emit
 CHECK_DEADLOCK FALSE
